@@ -408,7 +408,59 @@ def rB_heap_backend(ctx):
     ctx.cfg = 'A'
 
 
+def r7_timestamp_roundtrip(ctx):
+    """an event is returned together with the timestamp it was scheduled with: the stored time is the parameter itself"""
+    ctx.set_rule('C01.R7')
+    P = ctx.P
+    N = 'des_cqueue::stable::linked_list::EventNode'
+    a = P.adts.get(N)
+    fa = ctx.anchor(Q + '::add')
+    if a is None or fa is None:
+        ctx.violation('anchor:EventNode', 'unresolved-anchor EventNode / CQueue::add'); return
+    tparam = fa.local_ty(2)
+    fty = next((fl['ty'] for fl in a['variants'][0]['fields'] if fl['n'] == 'time'), None)
+    ctx.check(fty == tparam, 'node-time-type', "a list node stores the timestamp with the type add() receives it in (no narrower representation)", None, {'node.time': fty, 'add(time)': tparam})
+    fn = ctx.anchor(N + '::new')
+    if fn:
+        ok = False
+        for b, t in ret_trees(fn):
+            for x in walk(t):
+                if x[0] == 'agg' and x[1].endswith('EventNode::EventNode') and 'time' in x[3]:
+                    v = x[2][x[3].index('time')]
+                    ok = peel(v)[0] == 'arg' and peel(v)[2] == 'time'
+        ctx.check(ok, 'node-time-stored', 'EventNode::new stores the time parameter unchanged', fn.where())
+    fl = ctx.anchor(L + '::add')
+    if fl:
+        s = fl.calls_to(N + '::new')
+        ok = len(s) == 1 and peel(fl.expr_operand(s[0].args[1], s[0].b, 'T')) == ('arg', 3, 'time')
+        ctx.check(ok, 'list-add-passes-time', 'DualLinkedList::add passes its time parameter to the node unchanged', fl.where())
+    fi = ctx.anchor(N + '::into_inner')
+    if fi:
+        ok = False
+        for b, t in ret_trees(fi):
+            if t[0] == 'agg' and t[1] == 'tuple' and len(t[2]) == 2:
+                v = peel(t[2][1])
+                ok = v[0] == 'field' and v[2] == 'time' and not any(x[0] in ('cast', 'bin') for x in walk(t[2][1]))
+        ctx.check(ok, 'node-time-returned', 'the node\'s stored time is returned with the event, unconverted', fi.where())
+    # bucket path of CQueue::add hands `time` on unchanged; zero path stores it in the tuple
+    for s in fa.calls_to(L + '::add'):
+        ctx.check(peel(fa.expr_operand(s.args[2], s.b, 'T')) == ('arg', 2, 'time'), 'queue-add-passes-time', 'CQueue::add files the event under the time it was given', s.where())
+    for s in [c for c in fa.calls() if c.name in INSERT_Z]:
+        t = peel(fa.expr_operand(s.args[1], s.b, 'T'))
+        ok = t[0] == 'agg' and t[1] == 'tuple' and any(peel(x) == ('arg', 2, 'time') for x in t[2])
+        ctx.check(ok, 'zero-keeps-time', 'the zero-delay container keeps the given time with the event', s.where())
+    ff = ctx.anchor(Q + '::fetch_next')
+    if ff:
+        for path, outcome, decs in fn_paths(ctx, ff):
+            if outcome != 'return':
+                continue
+            r = path_ret(ff, path)
+            lossy = [x for x in walk(r) if x[0] == 'cast'] if r else ['?']
+            ctx.check(not lossy, 'fetch-returns-stored-time', 'fetch_next returns the stored (event, time) pair without converting the time', ff.where_path(path))
+
+
 def run(ctx):
+    r7_timestamp_roundtrip(ctx)
     r1_len_accounting(ctx)
     r2_bucket_index(ctx)
     r3_container_agreement(ctx)
